@@ -13,7 +13,7 @@ FHi   == atoi(IOEnv.FHI)
 NClasses == atoi(IOEnv.CLASSES)
 NTails   == atoi(IOEnv.TAILS)
 
-Boundary == <<\h1F600, \h20AC, \hE9, \h10FFFF, \hFEFF, \h7A, \hFFFF, 0>>
+Boundary == <<\h1F600, \h20AC, 0, \h10FFFF, \hE9, \hFEFF, \h7A, \hFFFF>>
 TailsAll == << <<>>, <<\h7A>>, <<\h20AC, \h1F600>> >>
 Filler   == \h61
 
